@@ -254,15 +254,25 @@ EnumFixFrags == {x \in {FEnumFix(ub, neg, k, d, ty, w) : ub \in FixBases, neg \i
                    /\ x.k >= 0 => MagLe(x.k, x.d, TyMaxBit(x.ty), -1)
                    /\ x.neg => x.ty \in {"int", "long"}
                    /\ x.wrap => x.k \in {-1, 31, 63, 64}}
+(* `static T *zv = <address of an object>;`  dur: storage duration of the object whose address is taken; shape: &obj, &obj.q,  *)
+(* &arr[1], arr (decayed).  Objects (CSTypes: prelude / PreludeLocals): auto li, lst, lar; thread at file scope gtl, gtls, gtla;   *)
+(* thread at block scope (static _Thread_local) ltl, ltls, ltla; extern thread gtle, gtles, gtlea; static gi, gt, ga.            *)
+Durations == {"auto", "tls_file", "tls_block", "tls_extern", "static"}
+FSInitAddr(d, sh) == [form |-> "sinitaddr", dur |-> d, shape |-> sh]
+SInitAddrFrags == {FSInitAddr(d, sh) : d \in Durations, sh \in {"scalar", "member", "elem", "decay"}}
+(* a declarator spelled like the visible typedef name td_t after a complete type specifier: it declares an object, a parameter or  *)
+(* a member named td_t (6.7.8p3, 6.2.3: after a type specifier the identifier is a declarator, not a typedef name) - always valid     *)
+FTdShadow(sp, w) == [form |-> "tdshadow", spec |-> sp, where |-> w]
+TdShadowFrags == {FTdShadow(sp, w) : sp \in {"td_t", "struct_S", "union_U", "enum_E", "void_ptr", "_Bool", "int", "ptr_td"}, w \in {"obj", "param", "member"}}
 MiscFrags == {FMisc(k) : k \in {"toplevel_semi", "nested_fn", "missing_semi", "unbalanced_paren", "kw_as_ident", "asm_label", "attr_ok",
    "typedef_asm", "attr_after_paren", "attr_aligned_bad", "attr_aligned_unsup", "vla_static", "vla_init", "vla2_init", "vla_ok",
    "scalar_double_brace", "init_missing_comma", "nullptr_assign", "const_fold_overflow_s", "const_fold_overflow_u",
    "static_init_addr_local", "static_init_addr_compound", "static_init_addr_index", "static_init_addr_ok", "eof_comment_decl"}}
 DeclFrags == SpecFrags \cup ScFrags \cup ObjFrags \cup BfFrags \cup AlignasFrags \cup ArrFrags \cup SaFrags \cup InitFrags
              \cup StrInitFrags \cup StructFrags \cup ParamFrags \cup FdeclFrags \cup RedeclFrags \cup TagFrags \cup EnumFrags
-             \cup MiscFrags \cup SInitFrags \cup CInitFrags \cup EnumFixFrags
+             \cup MiscFrags \cup SInitFrags \cup CInitFrags \cup EnumFixFrags \cup SInitAddrFrags \cup TdShadowFrags
 DeclForms == {"spec", "sc", "obj", "bf", "alignas", "arr", "sa", "init", "strinit", "struct", "param", "fdecl", "redecl",
-              "tag", "enum", "misc", "sinit", "cinit", "enumfix"}
+              "tag", "enum", "misc", "sinit", "cinit", "enumfix", "sinitaddr", "tdshadow"}
 
 (* ---- directive fragments -------------------------------------------------------------- *)
 (* d: directive name; for define: redef (relation to the existing macro MF / a macro       *)
